@@ -1,5 +1,5 @@
 (* C17 — the metainfo model is a faithful, safe reading of the .torrent. *)
-From Rdest Require Import Base BCodec DeepFinder Metainfo MetaProofs.
+From Rdest Require Import Base Consts BCodec DeepFinder Metainfo MetaProofs CreateProofs.
 Open Scope N_scope.
 
 (* parsing any byte string terminates without panicking *)
@@ -22,9 +22,27 @@ Theorem C17_accessors_safe : forall ovf data m, metainfo_of data = Ok m ->
   forall i, i < pieces_num m -> piece m i <> Panic /\ piece_length ovf m i <> Panic.
 Proof. intros ovf data m. exact (accessors_safe ovf data m eq_refl eq_refl). Qed.
 
-(* PARTIAL: the create -> parse round trip (C17_create_parse in DESIGN.md) is
-   tied by the correspondence check only; its Coq proof needs the DeepFinder
-   re-serialisation lemma and is not done. *)
+(* create -> parse: the document create_file writes (for any name, tracker, data length and hash string within the
+   stated bounds) is read back as exactly those fields, and what is hashed for it is the canonical encoding of its info
+   dictionary (decode_encode for the decoder, FinderProofs.find_first_spec for the info span) *)
+Theorem C17_create_parse : forall name tracker pieces data_len,
+  len name < 18446744073709551616 -> len tracker < 18446744073709551616 -> len pieces < 18446744073709551616 ->
+  data_len < 9223372036854775808 -> utf8_valid name = true -> utf8_valid tracker = true -> safe_path name = true ->
+  len pieces mod HASH_SIZE = 0 ->
+  metainfo_of (create_torrent_with name tracker data_len pieces) =
+    Ok (mkmeta tracker name PIECE_LENGTH (chunks (N.to_nat HASH_SIZE) pieces) [mkfile data_len name]
+               (encode (BDict (info_dict name data_len pieces)))).
+Proof. exact create_parse. Qed.
+(* with the hashes computed by any 20-byte hash function over the 256 KiB chunks of the data *)
+Theorem C17_create_file_parse : forall (sha1 : bytes -> bytes) name tracker data,
+  (forall x, len (sha1 x) = HASH_SIZE) ->
+  len name < 18446744073709551616 -> len tracker < 18446744073709551616 -> len data < 9223372036854775808 ->
+  utf8_valid name = true -> utf8_valid tracker = true -> safe_path name = true ->
+  exists h,
+    metainfo_of (create_torrent sha1 name tracker data) =
+      Ok (mkmeta tracker name PIECE_LENGTH (map sha1 (chunks (N.to_nat PIECE_LENGTH) data)) [mkfile (len data) name] h) /\
+    find_first key_info_raw (create_torrent sha1 name tracker data) = Some h.
+Proof. exact create_file_parse. Qed.
 
 Check C17_total : forall data, metainfo_of data <> Panic /\ metainfo_of data <> OutOfFuel.
 Check C17_accessors_safe : forall ovf data m, metainfo_of data = Ok m ->
@@ -43,3 +61,5 @@ Proof. vm_compute. reflexivity. Qed.
 Print Assumptions C17_total.
 Print Assumptions C17_faithful.
 Print Assumptions C17_accessors_safe.
+Print Assumptions C17_create_parse.
+Print Assumptions C17_create_file_parse.
